@@ -1,6 +1,7 @@
 package checks
 
 import (
+	"sync"
 	"bytes"
 	"context"
 	"fmt"
@@ -201,6 +202,13 @@ func C13(c *Ctx) {
 		for _, bom := range []string{"\xff\xfe", "\xfe\xff", "\xef\xbb\xbf", "\xff\xfe\x00\x00", "\x00\x00\xfe\xff"} {
 			many = append(many, bom, bom+"A", bom+"A\x00", bom+"A <- 'a'\n", bom+"A\x00 \x00<\x00-\x00 \x00'\x00a\x00'\x00\n\x00", bom+"A\x00 \x00<\x00-\x00 \x00'\x00a\x00'\x00\n")
 		}
+		// texts that end, without a final newline, in a multi-byte character (an identifier, a comment) or in
+		// stray continuation bytes - also under -debug, whose trace looks at the input around the position
+		for _, t := range []string{"A <- 'a' B\nB <- 'b' // été", "A ← 'a' Bé\nBé ← 'b' / 'c' Bé", "Règle <- 'abcdefghijklmnop' // €", "A <- 'a' 'bcdefghijklmnop'\x80\xbf", "A <- 'abcdefghijklmnopq' B\nB <- [α-ω]+ 'x'\n// ←"} {
+			for _, f := range [][]string{{"-debug"}, {"-debug", "-cache"}, {"-debug", "-optimize-grammar"}, {}} {
+				jobs = append(jobs, job{[]byte(t), f, false, true, "multibyte-end"}, job{[]byte(t), f, true, false, "multibyte-end"})
+			}
+		}
 		for i, t := range many {
 			for _, f := range [][]string{{}, {"-cache"}, {"-optimize-grammar", "-optimize-parser"}} {
 				jobs = append(jobs, job{[]byte(t), f, i%2 == 0, i%3 == 0, "many-errors"})
@@ -292,6 +300,20 @@ func C13(c *Ctx) {
 		return res, res.Stdout, true
 	}
 	documented := map[int]bool{1: true, 2: true, 3: true, 4: true, 5: true, 6: true, 7: true, 8: true, 9: true}
+	var suspectMu sync.Mutex
+	var suspects []int
+	defer func() {
+		for _, i := range suspects {
+			j := jobs[i]
+			res, _, _ := run(j, j.flags)
+			if res.Killed && res.CPU > 30*time.Second {
+				c.Report(&Violation{Class: "C13/hang", Summary: fmt.Sprintf("pigeon does not terminate (%.0f s CPU consumed, killed; the same on a second run made alone); flags %v stdin=%t -o=%t; text %q", res.CPU.Seconds(), j.flags, j.stdin, j.ofile, truncBytes(j.text, 400)),
+					Grammar: string(j.text), Flags: j.flags, Input: j.text, Extra: map[string]any{"kind": j.kind}, Sig: c13Sig(j.text, j.flags, res)})
+			} else {
+				c.Inconclusive("cpu_overrun_not_reproduced_when_run_alone")
+			}
+		}
+	}()
 	parallel(len(jobs), 16, func(i int) {
 		j := jobs[i]
 		res, out, outExists := run(j, j.flags)
@@ -310,7 +332,11 @@ func C13(c *Ctx) {
 		}
 		if res.Killed {
 			if res.CPU > 30*time.Second {
-				report("hang", fmt.Sprintf("pigeon does not terminate (%.0f s CPU consumed, killed)", res.CPU.Seconds()))
+				// decided by a second run of the same case, alone, after the parallel phase (on a machine that
+				// is overloaded many times over even a 20 ms run has been seen to be charged 40 s)
+				suspectMu.Lock()
+				suspects = append(suspects, i)
+				suspectMu.Unlock()
 			} else {
 				c.Inconclusive("wall_timeout_without_cpu_overrun")
 			}
